@@ -125,7 +125,11 @@ fn mode_sdk(case: &Value) -> Value {
             for (k, v) in &context.variables {
                 vars.insert(k.clone(), json!(v));
             }
-            json!({"ok": true, "vars": vars, "state_keys": context.state.keys().cloned().collect::<Vec<String>>()})
+            let handles = match context.state.get("handles") {
+                Some(duckscript::types::runtime::StateValue::SubState(m)) => m.len(),
+                _ => 0,
+            };
+            json!({"ok": true, "vars": vars, "handles": handles, "state_keys": context.state.keys().cloned().collect::<Vec<String>>()})
         }
         Err(error) => json!({"ok": false, "error": error_json(&error)}),
     }
@@ -231,6 +235,9 @@ impl Command for Recorder {
     }
     fn run(&self, context: CommandInvocationContext) -> CommandResult {
         self.log.borrow_mut().push(json!({"command": self.name, "arguments": context.arguments}));
+        if self.output.as_deref() == Some("@arg1") {
+            return CommandResult::Continue(context.arguments.get(1).cloned());
+        }
         CommandResult::Continue(self.output.clone())
     }
 }
@@ -245,7 +252,12 @@ fn mode_scripted_sdk(case: &Value) -> Value {
     let names = case["recorders"].as_array().cloned().unwrap_or(vec![json!("c")]);
     for n in names {
         let out = case["recorder_output"].as_str().unwrap_or("true").to_string();
-        context.commands.set(Box::new(Recorder { name: n.as_str().unwrap().to_string(), log: log.clone(), output: Some(out) })).unwrap();
+        let out = if out.is_empty() { None } else { Some(out) };
+        context.commands.set(Box::new(Recorder { name: n.as_str().unwrap().to_string(), log: log.clone(), output: out })).unwrap();
+    }
+    // probes: record their arguments and return their second argument
+    for n in case["probes"].as_array().cloned().unwrap_or_default() {
+        context.commands.set(Box::new(Recorder { name: n.as_str().unwrap().to_string(), log: log.clone(), output: Some("@arg1".to_string()) })).unwrap();
     }
     // commands that fail with the next message of a queue
     let fail_queue = Rc::new(RefCell::new(
